@@ -14,7 +14,7 @@ ANCHORS = ['to_rfi', 'to_mef', 'transform', 'high_low']      # functions the pro
 LEVEL = 'exploration'
 LEVEL_TEXT = 'Bitwise oracle: every event that sat at an original range limit must have exactly the value of the new limit after to_rfi/to_mef/transform, and the real default saturation gate must commute with the conversions; evaluated on tens of thousands of amplifier/curve parameter draws. Exploration (numerical outcome depends on the NumPy build, recorded in evidence).'
 TECHNIQUE = 'runtime contract on conversions (bitwise limit-vs-saturated-event oracle) + commutation checker of two real pipelines'
-RULE = ('integer samples with events at 0, 1, R-2, R-1 in every channel x R in {2^8..2^18,1000,1023} x amplifier '
+RULE = ('integer samples with events at 0, 1, R-2, R-1 in every channel x R in {2^8..2^18,1000,1023}, and (1 in 4) single/double precision samples with events on both limits, non-power-of-two gains and log amplifiers x amplifier '
         'settings x standard curves m in [0.85,1.25], b in [0,7] x channel subsets; non-trivial = a log channel or a '
         'power-law curve is involved (pow evaluation); distinct = digest(sample, parameters)')
 ASSUMPTIONS = ['equality is bitwise; holds for the NumPy build in /venv (vectorised pow)']
@@ -32,7 +32,24 @@ def run(ctx):
     for cid, rng in ctx.cases([('s', i) for i in range(n)]):
         mon.cid = cid
         D = int(rng.integers(2, 6))
-        spec = zoo.int_spec(rng, n=int(rng.integers(12, 60)), d=D, all_log=rng.random() < 0.4)
+        if rng.random() < 0.75:
+            spec = zoo.int_spec(rng, n=int(rng.integers(12, 60)), d=D, all_log=rng.random() < 0.4)
+        else:
+            # single / double precision samples with events sitting exactly on the limits 0 and R-1, linear gains that
+            # are not powers of two and log amplifiers (the law must be evaluated as for the limits: in double precision)
+            spec = zoo.float_spec(rng, n=int(rng.integers(12, 60)), d=D, negatives=rng.random() < 0.3,
+                                  dt='F' if rng.random() < 0.7 else 'D')
+            R = int(rng.choice([262144, 1024, 1000, 65536]))
+            spec['ranges'] = [R] * D
+            for j in range(D):
+                spec['png'][j] = [None, '1', '10', '0.3', '3.7', '100', '2.5'][int(rng.integers(7))]
+                if rng.random() < 0.35:
+                    spec['pne'][j] = str(rng.choice(['4,1', '4.5,0.1', '5,0']))
+                    spec['png'][j] = None
+            ev = spec['events']
+            for j in range(D):
+                for v in (0.0, float(R - 1), float(R - 1), float(R - 2), float(R)):
+                    ev[int(rng.integers(len(ev)))][j] = min(v, 262143.0) if R == 262144 else v
         s = zoo.write_and_load(F, spec, path)
         k = int(rng.integers(1, D + 1))
         pos = [int(x) for x in rng.permutation(D)[:k]]
